@@ -32,6 +32,9 @@ def run(repo, rep):
     rep.clause("C04-f", "block-dependency geometry is axis-consistent (role homogeneity)")
     rep.clause("C04-f'", "overlap predicates are at least as conservative as half-open interval overlap")
     rep.undecided("sufficiency of the chosen BLOCKDEP / wait counts under the hardware overlap model; exact byte overlap of tiled strided footprints")
+    from .shared import none_skip_lint
+
+    none_skip_lint(repo, rep, "C04-f'", ['register_command_stream_util', 'register_command_stream_generator', 'range_set'])
     rep.assume("Python asserts are enabled")
     rule_conflicts(repo, rep)
     rule_access_sets(repo, rep)
@@ -39,6 +42,10 @@ def run(repo, rep):
     rule_emission_order(repo, rep)
     rule_roles(repo, rep)
     rule_polarity(repo, rep)
+    rep.clause("C04-c'", "the functions that build access sets are not memoised and no process-wide store keeps them across streams (an operation object retargeted between two streams gets a fresh access set) [rule shared with C14-a]")
+    from . import c14
+
+    rep.run_borrowed(c14, {'C14-a': "C04-c'"}, repo)
 
 
 # ------------------------------------------------------------------ a
